@@ -13,6 +13,20 @@ C19_INC := -include sim/redirect_malloc.hpp
 
 C20_SRC := checks/c20/main.cpp $(wildcard checks/c20/kinds_*.cpp)
 
+C13_PIPES := $(patsubst checks/c13/%.cpp,%,$(wildcard checks/c13/pipelines_*.cpp))
+C13_FLAGS_cuda := -DC13_BACKEND_CUDA -include sim/shim/cuda_runtime_sim.hpp
+C13_FLAGS_hip := -DC13_BACKEND_HIP -Isim/shim
+C13_FLAGS_sycl := -DC13_BACKEND_SYCL -Isim/shim
+
+define c13_rules
+# $(1)=flavour, $(2)=flags, $(3)=backend
+$(B)/$(1)/c13/$(3)/%.o: checks/c13/%.cpp
+	@mkdir -p $$(dir $$@)
+	$(CXX) $(BASE) $(2) $$(C13_FLAGS_$(3)) -c $$< -o $$@
+$(B)/$(1)/c13/c13_$(3): $(B)/$(1)/c13/main.o $$(patsubst %,$(B)/$(1)/c13/$(3)/%.o,$$(C13_PIPES))
+	$(CXX) $(2) $$^ -o $$@
+endef
+
 define flavour_rules
 # $(1)=flavour name, $(2)=flags
 $(B)/$(1)/c19/%.o: checks/c19/%.cpp
@@ -26,20 +40,27 @@ $(B)/$(1)/c20/%.o: checks/c20/%.cpp
 	$(CXX) $(BASE) $(2) -c $$< -o $$@
 $(B)/$(1)/c20/c20: $(patsubst checks/c20/%.cpp,$(B)/$(1)/c20/%.o,$(C20_SRC)) $(B)/$(1)/sim/hostheap.o
 	$(CXX) $(2) $$^ -o $$@
+$(B)/$(1)/c13/main.o: checks/c13/main.cpp
+	@mkdir -p $$(dir $$@)
+	$(CXX) $(BASE) $(2) -c $$< -o $$@
 $(B)/$(1)/c19/c19: $(patsubst checks/c19/%.cpp,$(B)/$(1)/c19/%.o,$(C19_SRC)) $(B)/$(1)/sim/hostheap.o
 	$(CXX) $(2) $$^ -o $$@
 endef
 
 $(eval $(call flavour_rules,plain,$(PLAIN)))
 $(eval $(call flavour_rules,asan,$(ASAN)))
+$(foreach be,cuda hip sycl,$(eval $(call c13_rules,plain,$(PLAIN),$(be))))
+$(foreach be,cuda hip sycl,$(eval $(call c13_rules,asan,$(ASAN),$(be))))
 
 c19-plain: $(B)/plain/c19/c19
 c19-asan: $(B)/asan/c19/c19
 c20-plain: $(B)/plain/c20/c20
 c20-asan: $(B)/asan/c20/c20
+c13-plain: $(B)/plain/c13/c13_cuda $(B)/plain/c13/c13_hip $(B)/plain/c13/c13_sycl
+c13-asan: $(B)/asan/c13/c13_cuda $(B)/asan/c13/c13_hip $(B)/asan/c13/c13_sycl
 
 -include $(shell find $(B) -name '*.d' 2>/dev/null)
 
-.PHONY: c19-plain c19-asan c20-plain c20-asan clean
+.PHONY: c19-plain c19-asan c20-plain c20-asan c13-plain c13-asan clean
 clean:
 	rm -rf $(B)
